@@ -169,6 +169,13 @@ fn one_run(run_no: usize, seed: u64, cfg: &Cfg) -> (Vec<Value>, Value) {
     for c in 1..=nclients {
         push(&mut due, t0 + Duration::from_millis(first_send[c]), Act::Send { r: 2 * c - 1 });
     }
+    // burst: in a third of the runs one worker hangs up at the very moment a client sends, so that the
+    // hang-up races with the scatter (the hub may hold unsent data for that worker when it sees the HUP)
+    if rng.below(3) == 0 {
+        let w = rng.below(nw as u64) as usize;
+        let c = 1 + rng.below(nclients as u64) as usize;
+        push(&mut due, t0 + Duration::from_millis(first_send[c]), Act::Close { w });
+    }
     let mut crashed: Option<String> = None;
     let hard_stop = t0 + Duration::from_secs(60);
     loop {
